@@ -56,7 +56,7 @@ func NewStrategy(m *MethodEvaluator) MethodEvaluateStrategy {
 	}
 
 	// for single char class (e.g: class H end;)
-	if base.IsClassDefined([]string{m.ctx.GetFrame()}, m.objectT.ToString()) && len(m.objectT.ToString()) == 1 {
+	if m.objectT.IsIdentifierType() && base.IsClassDefined([]string{m.ctx.GetFrame()}, m.objectT.ToString()) && len(m.objectT.ToString()) == 1 {
 		return &classMethodStrategy{}
 	}
 
